@@ -7,7 +7,7 @@ import lensgen
 sys.path.insert(0, vlib.REPO)
 
 
-def impl_trace(optic, Hx, Hy, Px, Py, w):
+def impl_trace(optic, Hx, Hy, Px, Py, w, records_check=False):
     """one ray through the implementation; returns (launch(9), records[list of 8-lists]) or ('err', type)"""
     try:
         optic.trace_generic(np.array([Hx], dtype=float), np.array([Hy], dtype=float),
@@ -16,6 +16,11 @@ def impl_trace(optic, Hx, Hy, Px, Py, w):
         return ('err', type(e).__name__, str(e)[:120])
     sg = optic.surface_group
     cols = [sg.x, sg.y, sg.z, sg.L, sg.M, sg.N, sg.intensity, sg.opd]
+    nsurf = len(sg.surfaces)
+    shapes = [tuple(np.shape(c)) for c in cols]
+    if any(sh != (nsurf, 1) for sh in shapes):
+        # the per-surface records are not those of the traced ray (a row per surface, one column for the one ray)
+        return ('records', shapes, nsurf) if records_check else ('err', 'RecordShape', str(shapes))
     nrec = cols[0].shape[0]
     recs = [[float(c[k, 0]) for c in cols] for k in range(nrec)]
     return ('ok', recs)
